@@ -256,7 +256,7 @@ func doVolumeBasedDeletion(ingestNodeDir string, allowedVolumeGB uint64, deletio
 		if segMeta, ok := allEntries[i].(*structs.SegMeta); ok {
 			timeI = segMeta.LatestEpochMS
 		} else if metricMeta, ok := allEntries[i].(*structs.MetricsMeta); ok {
-			timeI = uint64(metricMeta.LatestEpochSec * 1000) // convert to milliseconds
+			timeI = uint64(metricMeta.LatestEpochSec) * 1000 // convert to milliseconds (in 64 bits: the product does not fit uint32)
 		} else {
 			return false
 		}
@@ -265,7 +265,7 @@ func doVolumeBasedDeletion(ingestNodeDir string, allowedVolumeGB uint64, deletio
 		if segMeta, ok := allEntries[j].(*structs.SegMeta); ok {
 			timeJ = segMeta.LatestEpochMS
 		} else if metricMeta, ok := allEntries[j].(*structs.MetricsMeta); ok {
-			timeJ = uint64(metricMeta.LatestEpochSec * 1000)
+			timeJ = uint64(metricMeta.LatestEpochSec) * 1000
 		} else {
 			return false
 		}
@@ -275,6 +275,9 @@ func doVolumeBasedDeletion(ingestNodeDir string, allowedVolumeGB uint64, deletio
 	segmentsToDelete := make(map[string]*structs.SegMeta)
 	metricSegmentsToDelete := make(map[string]*structs.MetricsMeta)
 
+	// Entries are sorted oldest first. Stop at the first one that does not fit into the
+	// remaining volume, so that no segment newer than a kept one is deleted.
+deletionLoop:
 	for _, metaEntry := range allEntries {
 		switch entry := metaEntry.(type) {
 		case *structs.MetricsMeta:
@@ -282,14 +285,14 @@ func doVolumeBasedDeletion(ingestNodeDir string, allowedVolumeGB uint64, deletio
 				metricSegmentsToDelete[entry.MSegmentDir] = entry
 				volumeToDeleteInBytes -= entry.BytesReceivedCount
 			} else {
-				break
+				break deletionLoop
 			}
 		case *structs.SegMeta:
 			if entry.BytesReceivedCount < volumeToDeleteInBytes {
 				segmentsToDelete[entry.SegmentKey] = entry
 				volumeToDeleteInBytes -= entry.BytesReceivedCount
 			} else {
-				break
+				break deletionLoop
 			}
 		}
 	}
@@ -482,7 +485,7 @@ func doInodeBasedDeletion(ingestNodeDir string, deletionWarningCounter int) {
 		if segMeta, ok := allEntries[i].(*structs.SegMeta); ok {
 			timeI = segMeta.LatestEpochMS
 		} else if metricMeta, ok := allEntries[i].(*structs.MetricsMeta); ok {
-			timeI = uint64(metricMeta.LatestEpochSec * 1000)
+			timeI = uint64(metricMeta.LatestEpochSec) * 1000
 		} else {
 			log.Errorf("doInodeBasedDeletion: Unexpected entry type in allEntries: %T", allEntries[i])
 			return false
@@ -492,7 +495,7 @@ func doInodeBasedDeletion(ingestNodeDir string, deletionWarningCounter int) {
 		if segMeta, ok := allEntries[j].(*structs.SegMeta); ok {
 			timeJ = segMeta.LatestEpochMS
 		} else if metricMeta, ok := allEntries[j].(*structs.MetricsMeta); ok {
-			timeJ = uint64(metricMeta.LatestEpochSec * 1000)
+			timeJ = uint64(metricMeta.LatestEpochSec) * 1000
 		} else {
 			log.Errorf("doInodeBasedDeletion: Unexpected entry type in allEntries: %T", allEntries[j])
 			return false
